@@ -20,4 +20,5 @@ let table : (string * (z list list list -> z list list)) list = [
   ("rdl_model", e_rdl_model);
   ("c08_replay", e_c08_replay);
   ("udp_model", e_udp_model);
+  ("c17_replay", e_c17_replay);
 ]
